@@ -106,7 +106,7 @@ def run_unit(args):
         for values in grid:
             if not whole:
                 try:
-                    r = replay.conform(T, case, values)
+                    r = case.conformance(T, values) if hasattr(case, "conformance") else replay.conform(T, case, values)
                 except contract.C.Unsupported as e:
                     r = "unsupported"
                 if r == "outside":
